@@ -12,7 +12,8 @@ def findBy {α} (all : List α) (ident : α → String) (s : String) : Option α
 def parseVal (kw : Kw) (ty v : String) : Option Val :=
   match ty with
   | "int" => v.toInt?.map Val.int
-  | "real" => (parseRat v).map Val.real
+  | "real" => if v == "nan" then some (.real .nan) else if v == "inf" then some (.real .posInf)
+              else if v == "-inf" then some (.real .negInf) else (parseRat v).map (fun q => Val.real (.fin q))
   | "bool" => if v == "1" then some (.bool true) else if v == "0" then some (.bool false) else none
   | "meth" => (findBy Meth.all Meth.ident v).map Val.method
   | "nbrs" => (findBy NbrMeth.all NbrMeth.ident v).map Val.neighbors
@@ -35,7 +36,10 @@ def parseItem (s : String) : Option Param :=
 
 def showVal : Val → String
   | .int i => "int:" ++ toString i
-  | .real q => "real:" ++ showRat q
+  | .real (.fin q) => "real:" ++ showRat q
+  | .real .nan => "real:nan"
+  | .real .posInf => "real:inf"
+  | .real .negInf => "real:-inf"
   | .bool b => if b then "bool:1" else "bool:0"
   | .method m => "name:" ++ m.ident
   | .neighbors m => "name:" ++ m.ident
